@@ -31,6 +31,15 @@ func main() {
 		os.Exit(props.Replay(os.Args[2]))
 	case "worker":
 		os.Exit(props.Worker(os.Args[2:]))
+	case "died":
+		// mc died <Cxx> <tier> <how>: used by wrappers of checks with a binary of their own (C11)
+		if len(os.Args) < 5 {
+			os.Exit(2)
+		}
+		r := core.NewRun(os.Args[2], os.Args[3])
+		r.Violate(core.Violation{Sig: "check-process-died", What: "the process executing jet for this check died or hung instead of giving a verdict: " + firstFatal(os.Args[4]),
+			Case: map[string]interface{}{"property": os.Args[2], "tier": os.Args[3], "how": os.Args[4]}})
+		os.Exit(r.Finish(map[string]interface{}{"exhaustive": false, "aborted": "the check's process died", "rule": "nothing was covered: the process died"}))
 	}
 	tier := "quick"
 	if len(os.Args) > 2 {
